@@ -435,6 +435,13 @@ impl Model {
     /// the reference reader (used after harness-side damage, never after library calls).
     pub fn adopt_bucket(&mut self, ctx: &Ctx, key: &str) {
         let p = reffmt::bucket_path(&ctx.cache, key);
+        if p.is_dir() {
+            // not a damage class of any property but C20's "whatever the on-disk state":
+            // engines that use it do not judge with the model
+            self.index.insert(key.to_string(), KeyState { bucket_exists: true, entry: None });
+            self.list_unjudged = true;
+            return;
+        }
         match std::fs::read(&p) {
             Err(_) => {
                 self.index.insert(key.to_string(), KeyState { bucket_exists: false, entry: None });
@@ -725,7 +732,7 @@ impl Model {
     ) -> Result<(), String> {
         let what = format!("extract({kind:?}, checked={checked}, {by:?}, dest={dest:?})");
         let pre = match dest {
-            Dest::Absent => DestState::Absent,
+            Dest::Absent | Dest::OtherFs => DestState::Absent,
             Dest::Existing => DestState::File(PREEXISTING.len() as u64, sha256_hex(PREEXISTING)),
         };
         let dest_untouched = |d: &DestState| *d == pre || *d == DestState::Absent;
@@ -797,6 +804,15 @@ impl Model {
                     };
                 }
                 // pristine content
+                if kind == XKind::HardLink && dest == Dest::OtherFs {
+                    // link(2) cannot cross filesystems: an I/O error with nothing left behind, or
+                    // (an implementation may fall back to copying) exactly the stored bytes
+                    return match out {
+                        Out::ExtractErr { kind: ErrKind::Io { .. }, dest: d, .. } if *d == DestState::Absent => Ok(()),
+                        Out::Extracted { dest: d, .. } if *d == want => Ok(()),
+                        o => Err(format!("{what}: destination on another filesystem: expected an I/O error or the exact stored bytes, got {}", o.short())),
+                    };
+                }
                 if kind == XKind::HardLink && dest == Dest::Existing {
                     return match out {
                         Out::ExtractErr { kind: ErrKind::Io { .. }, dest: d, .. } if *d == pre => Ok(()),
